@@ -13,9 +13,9 @@ class References:
       An array, which elements are 3-tuples
       (from oriented segment, to oriented segment, cigar)
     """
-    if len(self.segment_names) == 1:
-      return []
     has_undef_overlaps = self._undef_overlaps()
+    if len(self.segment_names) == 1 and has_undef_overlaps:
+      return []
     if not has_undef_overlaps:
       self._validate_lists_size()
     retval = []
